@@ -13,7 +13,7 @@ LEAN = True  # cases are distinct by construction; see engine.Acc
 RULE = (
     "entries with 0..5 (quick) / 0..6 (thorough; 0..8 for alphabetical and normalise) fields whose keys range over {a, A, b, B, c} in every "
     "pattern, values unique per position; x alphabetical sorting, key normalisation and custom sorting with every permutation of every subset of "
-    "{a, A, b, c} as order, case-sensitive or not; in-place and copy mode; the library also holds one block of every other kind. Judged by the "
+    "{a, A, b, c} as order, case-sensitive or not; in-place and copy mode; every chain of three middlewares on the same object and apply-edit-apply for entries of <=3 (quick) / <=4 (thorough) fields; the library also holds one block of every other kind. Judged by the "
     "property (permutation, order, ties, merge rule, idempotence, everything else untouched). Non-trivial = entry with >=2 fields (distinct by (entry, middleware))."
 )
 ASSUMPTIONS = ["key order for alphabetical sorting is Python's string order (code points)"]
@@ -67,7 +67,7 @@ def run_one(keys, mwname, make, acc, rank=None):
             got = pairs(e)
             again = m.transform(out)
         except Exception as ex:
-            acc.raised[type(ex).__name__] += 1
+            acc.exception(ex, case, mwname.split(":")[0], size=len(keys) * 100)
             continue
         acc.step(("entry", keys), mwname, tuple(got))
         acc.outcome(tuple(k for k, _ in got))
@@ -125,6 +125,8 @@ def run_one(keys, mwname, make, acc, rank=None):
 
 def check_entry(keys, tier, acc):
     n = len(keys)
+    if n <= (3 if tier == "quick" else 4):
+        check_chains(keys, acc)
     run_one(keys, "alphabetical", lambda ip: SortFieldsAlphabeticallyMiddleware(allow_inplace_modification=ip), acc)
     run_one(keys, "normalize", lambda ip: NormalizeFieldKeys(allow_inplace_modification=ip), acc)
     if n > (5 if tier == "quick" else 6):
@@ -138,6 +140,94 @@ def check_entry(keys, tier, acc):
         else:
             rank = lambda k, o=folded: o.index(k.lower()) if k.lower() in o else len(o)
         run_one(keys, f"custom:{','.join(order)}:{'cs' if cs else 'ci'}", lambda ip, o=order, c=cs: SortFieldsCustomMiddleware(order=tuple(o), case_sensitive=c, allow_inplace_modification=ip), acc, rank)
+
+
+CHAIN_POOL = [
+    ("alphabetical", lambda ip: SortFieldsAlphabeticallyMiddleware(allow_inplace_modification=ip), None),
+    ("normalize", lambda ip: NormalizeFieldKeys(allow_inplace_modification=ip), None),
+    ("custom:b,a:ci", lambda ip: SortFieldsCustomMiddleware(order=("b", "a"), case_sensitive=False, allow_inplace_modification=ip), lambda k: {"b": 0, "a": 1}.get(k.lower(), 2)),
+    ("custom:A:cs", lambda ip: SortFieldsCustomMiddleware(order=("A",), case_sensitive=True, allow_inplace_modification=ip), lambda k: 0 if k == "A" else 1),
+    ("custom::ci", lambda ip: SortFieldsCustomMiddleware(order=(), allow_inplace_modification=ip), lambda k: 0),
+]
+
+
+def stage_ok(name, src, got, rank):
+    """The property's clause for one middleware, given the fields it received (src) and returned (got)."""
+    if name == "normalize":
+        lows = [k.lower() for k, _ in src]
+        last_val = {}
+        for k, v in src:
+            last_val[k.lower()] = v
+        return got == [(k, last_val[k]) for k in dict.fromkeys(lows)]
+    if sorted(got) != sorted(src):
+        return False
+    r = rank if rank is not None else (lambda k: k)
+    pos = {}
+    for n, kv in enumerate(src):
+        pos.setdefault(kv, []).append(n)
+    order_in = []
+    used = {}
+    for kv in got:
+        i = used.get(kv, 0)
+        order_in.append(pos[kv][i])
+        used[kv] = i + 1
+    keys = [(r(k), n) for (k, _), n in zip(got, order_in)]
+    return all(a <= b for a, b in zip(keys, keys[1:]))
+
+
+def check_chains(keys, acc):
+    """Sequences of three middlewares applied to the same library object, one after the other (as in a stack), plus a
+    user edit between two applications: every stage must satisfy its clause on the fields it receives."""
+    for inplace in (True, False):
+        for chain in itertools.product(range(len(CHAIN_POOL)), repeat=3):
+            lib = mk(keys)
+            names = [CHAIN_POOL[i][0] for i in chain]
+            case = {"keys": list(keys), "chain": names, "inplace": inplace}
+            acc.trace(3)
+            acc.case(nontrivial_key=("chain", keys, chain, inplace))
+            for st, i in enumerate(chain):
+                name, make, rank = CHAIN_POOL[i]
+                src = pairs(lib.blocks[0])
+                try:
+                    lib = make(inplace).transform(lib)
+                except Exception as ex:
+                    acc.exception(ex, case, name)
+                    break
+                got = pairs(lib.blocks[0])
+                if not stage_ok(name, src, got, rank):
+                    acc.violation(
+                        {"oracle": "stage_of_a_chain", "middleware": name.split(":")[0], "stage": st + 1},
+                        {"case": case, "observed": got, "expected": f"{name} applied to {src}"},
+                        size=len(keys) * 100,
+                    )
+                    break
+            acc.step(("entry", keys), ("chain", chain, inplace), tuple(pairs(lib.blocks[0])) if lib.blocks else ())
+        # apply, user edit (new field in front position order / re-assignment), apply again with the same instance
+        for i in range(len(CHAIN_POOL)):
+            name, make, rank = CHAIN_POOL[i]
+            inst = make(inplace)
+            lib = inst.transform(mk(keys))
+            e = lib.blocks[0]
+            e.set_field(Field("zz", "new"))
+            e.set_field(Field("0first", "new0"))
+            if e.fields:
+                e.fields.insert(0, e.fields.pop())
+            src = pairs(e)
+            case = {"keys": list(keys), "apply_edit_apply": name, "inplace": inplace}
+            acc.trace(2)
+            acc.case(nontrivial_key=("edit", keys, i, inplace))
+            try:
+                out = inst.transform(lib)
+            except Exception as ex:
+                acc.exception(ex, case, name)
+                continue
+            got = pairs(out.blocks[0])
+            if not stage_ok(name, src, got, rank):
+                acc.violation(
+                    {"oracle": "apply_edit_apply", "middleware": name.split(":")[0]},
+                    {"case": case, "observed": got, "expected": f"{name} applied to {src}"},
+                    size=len(keys) * 100,
+                )
 
 
 def check_ctor(acc):
